@@ -133,8 +133,8 @@ public:
         else if (cmd.rfind("multi", 0) == 0)
         {
             // multi <threads> <writes> <size>: several foreign threads write concurrently on this connection
-            int nt = 0, nw = 0, sz = 0;
-            sscanf(cmd.c_str(), "multi %d %d %d", &nt, &nw, &sz);
+            int nt = 0, nw = 0, sz = 0, fl = 0;
+            sscanf(cmd.c_str(), "multi %d %d %d %d", &nt, &nw, &sz, &fl);
             auto tr = transport();
             int pfd = peer->fd();
             for (int tt = 0; tt < nt; ++tt)
@@ -158,6 +158,8 @@ public:
                                     std::lock_guard<std::mutex> g(g_res.m);
                                     ++g_res.settles[1];
                                 });
+                        if (fl)
+                            tr->flush(); // what ResponseStream::flush / ends do after queueing their buffer
                     }
                 }).detach();
         }
@@ -339,13 +341,14 @@ static std::string handle(const std::string& line)
         // G <threads> <writes per thread> <size> <reader delay ms>
         int nt = atoi(t[1].c_str()), nw = atoi(t[2].c_str()), sz = atoi(t[3].c_str());
         int delay = t.size() > 4 ? atoi(t[4].c_str()) : 0;
+        int fl    = t.size() > 5 ? atoi(t[5].c_str()) : 0; // 1: every write is followed by Transport::flush() in the writing thread
         ::close(a); // the connection opened above asked for "go": use a fresh one
         {
             std::lock_guard<std::mutex> g(g_res.m);
             g_res.settles.assign(2, 0);
         }
         int c = pv::connect_loopback(port);
-        pv::send_all(c, "multi " + std::to_string(nt) + " " + std::to_string(nw) + " " + std::to_string(sz));
+        pv::send_all(c, "multi " + std::to_string(nt) + " " + std::to_string(nw) + " " + std::to_string(sz) + " " + std::to_string(fl));
         std::this_thread::sleep_for(std::chrono::milliseconds(delay));
         size_t each = 17 + static_cast<size_t>(sz);
         size_t want = each * static_cast<size_t>(nt) * static_cast<size_t>(nw);
